@@ -508,46 +508,59 @@ func (r *wrRun) serverPart(trusted, other *wrCA) {
 			continue
 		}
 		frame := loginFrame(token)
+		// all peers of one policy run side by side; every one waits the same generous time for an answer
+		const answerWait = 4 * time.Second
+		var pwg sync.WaitGroup
 		// TLS speaking peers
 		for _, first := range []string{"0x16", "0x17"} {
 			for _, cert := range []string{"none", "trusted", "untrusted"} {
 				r.stats["peers"]++
-				c, err := net.DialTimeout("tcp", srv.Addr, time.Second)
-				if err != nil {
-					continue
-				}
-				if first == "0x17" {
-					_, _ = c.Write([]byte{0x17})
-				}
-				tc := &tls.Config{InsecureSkipVerify: true}
-				switch cert {
-				case "trusted":
-					tc.Certificates = []tls.Certificate{goodPair}
-				case "untrusted":
-					tc.Certificates = []tls.Certificate{badPair}
-				}
-				t := tls.Client(c, tc)
-				_ = c.SetDeadline(time.Now().Add(3 * time.Second))
-				resp := false
-				if err := t.Handshake(); err == nil {
-					_, _ = t.Write(frame)
-					resp = answered(t, 1500*time.Millisecond)
-				}
-				c.Close()
-				r.sink.Emit("drv", "wr.peer", "policy", pol, "first", first, "speaks_tls", true, "cert", cert, "byte", -1, "answered", resp)
+				pwg.Add(1)
+				go func(first, cert string) {
+					defer pwg.Done()
+					c, err := net.DialTimeout("tcp", srv.Addr, time.Second)
+					if err != nil {
+						return
+					}
+					defer c.Close()
+					if first == "0x17" {
+						_, _ = c.Write([]byte{0x17})
+					}
+					tc := &tls.Config{InsecureSkipVerify: true}
+					switch cert {
+					case "trusted":
+						tc.Certificates = []tls.Certificate{goodPair}
+					case "untrusted":
+						tc.Certificates = []tls.Certificate{badPair}
+					}
+					t := tls.Client(c, tc)
+					_ = c.SetDeadline(time.Now().Add(answerWait + 3*time.Second))
+					resp := false
+					if err := t.Handshake(); err == nil {
+						_, _ = t.Write(frame)
+						resp = answered(t, answerWait)
+					}
+					r.sink.Emit("drv", "wr.peer", "policy", pol, "first", first, "speaks_tls", true, "cert", cert, "byte", -1, "answered", resp)
+				}(first, cert)
 			}
 			// the byte followed by something that is not TLS
 			r.stats["peers"]++
-			if c, err := net.DialTimeout("tcp", srv.Addr, time.Second); err == nil {
+			pwg.Add(1)
+			go func(first string) {
+				defer pwg.Done()
+				c, err := net.DialTimeout("tcp", srv.Addr, time.Second)
+				if err != nil {
+					return
+				}
+				defer c.Close()
 				b := byte(0x16)
 				if first == "0x17" {
 					b = 0x17
 				}
 				_, _ = c.Write(append([]byte{b}, frame...))
-				resp := answered(c, 1200*time.Millisecond)
-				c.Close()
+				resp := answered(c, answerWait)
 				r.sink.Emit("drv", "wr.peer", "policy", pol, "first", first, "speaks_tls", false, "cert", "none", "byte", int(b), "answered", resp)
-			}
+			}(first)
 		}
 		// every other first byte, followed by the rest of a well-formed login frame
 		var wg sync.WaitGroup
@@ -567,13 +580,14 @@ func (r *wrRun) serverPart(trusted, other *wrCA) {
 				defer c.Close()
 				f := append([]byte{byte(b)}, frame[1:]...)
 				_, _ = c.Write(f)
-				a := answered(c, 1500*time.Millisecond)
+				a := answered(c, answerWait)
 				mu.Lock()
 				res[b] = a
 				mu.Unlock()
 			}(b)
 		}
 		wg.Wait()
+		pwg.Wait()
 		for b := 0; b < 256; b++ {
 			a, ok := res[b]
 			if !ok {
